@@ -53,9 +53,10 @@ func TestC11_Exact(t *testing.T) {
 		if h.Size() != hs.size {
 			g.Fatalf("%s: Size() = %d, want %d", hs.desc, h.Size(), hs.size)
 		}
-		if g.Chance("dirtyHasher", 1, 8) {
-			// ComputeHash is documented to be independent of the existing state
-			_, _ = h.Write(g.Bytes("dirt", 1, 40))
+		if _, scripted := h.(*scriptHasher); !scripted && g.Chance("dirtyHasher", 1, 3) {
+			// ComputeHash is documented to be independent of the existing state: the hasher object gets a generated history
+			rate := map[string]int{"SHA2_256": 64, "SHA2_384": 128, "SHA3_256": 136, "SHA3_384": 104, "Keccak_256": 136, "KMAC128": 168}[hs.name]
+			ageHasher(g, "age", h, rate)
 			g.Class("dirtyHasher")
 		}
 		ctx := fmt.Sprintf("%v, message %x, %s", k, msg, hs.desc)
